@@ -38,6 +38,19 @@ Theorem C07_boundary_state_partial : forall a, boundary a ->
 Proof. exact boundary_state_canonical. Qed.
 Print Assumptions C07_boundary_state_partial.
 
+(* Reset(r, opts...) leaves exactly a new decoder on r with those options: byte counter, buffer, tables, clock, accumulators,
+   error, header-once flag.  So whatever the decoder did before, every entry point -- Decode, Next, the peeks, Discard,
+   CheckIntegrity -- answers after Reset as on a decoder that was never used (the full statement of C07 for Reset).  Rests on
+   what reset() and Reset() clear in the source, translated on every run (public_reset_clears_n: the byte counter, by which
+   Next and CheckIntegrity tell a clean end of the stream) *)
+Theorem C07_reset_is_new : forall a bs c, fst (api_step a (AReset bs c)) = api_new c bs.
+Proof. intros a bs c. exact (reset_is_new a bs c C07_source_resets_everything eq_refl). Qed.
+Print Assumptions C07_reset_is_new.
+Theorem C07_after_reset_every_entry_point_as_fresh : forall a bs c o,
+  api_step (fst (api_step a (AReset bs c))) o = api_step (api_new c bs) o.
+Proof. intros a bs c o. rewrite C07_reset_is_new. reflexivity. Qed.
+Print Assumptions C07_after_reset_every_entry_point_as_fresh.
+
 (* after a failed integrity check the read buffer is dropped, so rewinding the reader gives exactly the stream again *)
 Theorem C07_integrity_then_rewind : integrity_drops_buffer = true.
 Proof. reflexivity. Qed.
